@@ -283,6 +283,70 @@ static void handle(int argc, char **argv) {
         } else if (rc == CIF_OK) OUT(" !NOPACKET");
         for (i = 0; i < n; i++) free(names[i]);
         free(names);
+    } else if (argc >= 5 && (!strcmp(argv[1], "getpackets") || !strcmp(argv[1], "nextpacket"))) {
+        /* ladder getpackets <n> <name-hex>*n <k>                         cif_loop_get_packets
+           ladder nextpacket <keep> <n> (<name-hex> <vshape…>)*n <k>      cif_pktitr_next_packet (packet == NULL / *packet == NULL)
+           a stored loop with the n item names and ONE packet holding the given values (getpackets: unknown values); SQLite's own
+           allocations are not wrapped in this executor, so only the library's requests are events */
+        int isnext = argv[1][0] == 'n', keep = 0, n, i, bad = 0;
+        cif_tp *cif = NULL; cif_block_tp *blk = NULL; cif_loop_tp *loop = NULL; cif_packet_tp *pkt = NULL, *got = NULL;
+        cif_pktitr_tp *it = NULL;
+        UChar code[] = { 'b', 0 }, **names; cif_value_tp **vals;
+        pos = 2;
+        if (isnext) keep = atoi(argv[pos++]);
+        n = atoi(argv[pos++]);
+        if (n < 1 || n > 60) { OUT("bad-op"); return; }
+        names = (UChar **) calloc(n + 1, sizeof(UChar *)); vals = (cif_value_tp **) calloc(n + 1, sizeof(cif_value_tp *));
+        for (i = 0; i < n && !bad; i++) {
+            if (pos >= argc - 1 || !unhex(argv[pos++], &names[i], NULL) || !names[i]) bad = 1;
+            else if (isnext && !(vals[i] = mk(argv, argc, &pos))) bad = 1;
+        }
+        if (bad || pos != argc - 1) { OUT("bad-op"); goto itdone; }
+        if (cif_create(&cif) != CIF_OK || cif_create_block(cif, code, &blk) != CIF_OK
+                || cif_container_create_loop(blk, NULL, names, &loop) != CIF_OK || cif_packet_create(&pkt, names) != CIF_OK) { OUT("setup-failed"); goto itdone; }
+        for (i = 0; i < n; i++) if (vals[i] && cif_packet_set_item(pkt, names[i], vals[i]) != CIF_OK) { OUT("setup-failed"); goto itdone; }
+        if (cif_loop_add_packet(loop, pkt) != CIF_OK) { OUT("setup-failed"); goto itdone; }
+        if (!isnext) {
+            verif_arm(0, atol(argv[pos]));
+            ARM(); rc = cif_loop_get_packets(loop, &it); DISARM();
+            summary(rc);
+            if (rc == CIF_OK && !it) OUT(" !NOITER");
+            if (rc != CIF_OK && it) { OUT(" !ITERSET"); it = NULL; }
+            /* "the same call succeeds when repeated with memory available" */
+            if (rc != CIF_OK && cif_loop_get_packets(loop, &it) != CIF_OK) { OUT(" !RETRY"); it = NULL; }
+            /* the iterator is usable: read the packet through it, then abort */
+            if (it) { int r2 = cif_pktitr_next_packet(it, &got); if (r2 != CIF_OK || !got) OUT(" !ITERUSE%d", r2); }
+        } else {
+            if (cif_loop_get_packets(loop, &it) != CIF_OK || !it) { OUT("setup-failed"); it = NULL; goto itdone; }
+            verif_arm(0, atol(argv[pos]));
+            ARM(); rc = cif_pktitr_next_packet(it, keep ? &got : NULL); DISARM();
+            summary(rc);
+            if (rc == CIF_OK && keep && !got) OUT(" !NOPACKET");
+            if (rc != CIF_OK && got) { OUT(" !PACKETSET"); got = NULL; }
+            if (rc == CIF_OK && got) {
+                /* the packet read back holds exactly the stored values */
+                for (i = 0; i < n; i++) {
+                    cif_value_tp *x = NULL;
+                    char *a = NULL, *b = NULL; size_t sa = 0, sb = 0;
+                    FILE *fa, *fb;
+                    if (cif_packet_get_item(got, names[i], &x) != CIF_OK || !x) { OUT(" !PITEM%d", i); continue; }
+                    fa = open_memstream(&a, &sa); fb = open_memstream(&b, &sb);
+                    fdump_value(fa, x); fdump_value(fb, vals[i]);
+                    fclose(fa); fclose(fb);
+                    if (!a || !b || strcmp(a, b)) OUT(" !PVALUE%d", i);
+                    free(a); free(b);
+                }
+            }
+        }
+      itdone:
+        cif_packet_free(got);
+        if (it) cif_pktitr_abort(it);
+        cif_packet_free(pkt);
+        if (loop) cif_loop_free(loop);
+        if (blk) cif_container_free(blk);
+        if (cif) cif_destroy(cif);
+        for (i = 0; i < n; i++) { free(names[i]); cif_value_free(vals[i]); }
+        free(names); free(vals);
     } else if (argc >= 5 && !strcmp(argv[1], "set")) {
         /* the target is element 1 of [ ? <tshape> ? ]; replacing it releases pre-existing blocks only (counted as pfrees) */
         cif_value_tp *lst = NULL, *e, *filler = NULL, *old, *probe = NULL;
